@@ -373,7 +373,7 @@ func c07DumpStats() {
 			"print calls %d, max lines %d, max printed bytes %d, max (ToBoc len - input len) %d, max print call %d ms\n"+
 			"hangs: alloc %d, print %d\n",
 		s.nAlloc, slope, s.maxSlopeNum, s.maxSlopeLen, s.maxSmall, s.maxAllocMs,
-		s.nPrint, s.maxLines, s.maxPrintBytes, s.maxReserExcess, s.maxPrintMs, s.allocHangs, s.printHangs+s.shareHangs)), 0o644)
+		s.nPrint, s.maxLines, s.maxPrintBytes, s.maxReserExcess, s.maxPrintMs, s.allocHangs, s.printHangs+s.shareHangs)+c07HashStatsString()), 0o644)
 }
 
 // ---------------------------------------------------------------------------
@@ -605,6 +605,9 @@ func c07Sharing(c *Ctx, r *prng.R) {
 			budget = "over-budget"
 		}
 		class := "sharing|" + sc.name + "|" + budget
+		if c07hs.hangs < c07MaxHangs && !c07HashOracle(c, in, len(sc.dag)) {
+			continue // hung while hashing: reported, not executed again
+		}
 		out := c.EmitGuarded("c07.parse", in, class)
 		if isAtom(out, "crash", "timeout", "panic") {
 			c07Oracle(c, in, out) // reports it
